@@ -1184,3 +1184,9 @@ for _f in sorted(_glob.glob(_os.path.join(_VERIF, 'seeded', 'undecided', '*.diff
     dnoalarm('undecided-' + _os.path.basename(_f).replace('.diff', '')[:60], '*', _rel,
              why='behaviour-preserving refactoring of a form at least one rule declares undecided (exit 2): '
                  'never a violation')
+dtwin('c20-level-table-rebuilt-with-density', 'C20', 'seeded/twins/level-table-rebuilt-with-configured-density.diff',
+      why='table-driven forward descent whose table always has self.evolventDensity rows')
+dtwin('c09-level-table-rebuilt-with-density', 'C09', 'seeded/twins/level-table-rebuilt-with-configured-density.diff',
+      why='table-driven forward descent whose table always has self.evolventDensity rows')
+dnoalarm('level-table-rebuilt-with-density-noalarm', '*', 'seeded/twins/level-table-rebuilt-with-configured-density.diff',
+         why='the cube bound is undecided for step tables (exit 2), never a violation')
